@@ -232,6 +232,7 @@ static RunSpec derive_spec(const std::string& world, int variant, uint64_t run_s
     g.simple_ops = true;
     g.q120 = true;
     g.life_ops = true;
+    g.lib_alloc_slots = true;
     g.zero_sizes = true;
     g.min_calls = 8;
     g.max_calls = 28;
@@ -256,6 +257,8 @@ static RunSpec derive_spec(const std::string& world, int variant, uint64_t run_s
     g.table_ops = true;
     g.simple_ops = true;
     g.q120 = true;
+    g.life_ops = true;
+    g.lib_alloc_slots = true;
     g.shared_setup = true;
     g.zero_sizes = false;
     g.ntasks = 2 + (int)rc.below(rc.chance(1, 4) ? 15 : 4);
@@ -858,6 +861,11 @@ static int child_run(const RunSpec& s, long idx, int fd, const char* dump_path) 
     // with the explicit decisions below)
     std::ofstream f(dump_path);
     f << spec_to_json(s, nullptr, nullptr).dump() << "\n";
+    if (s.world == "c12") {
+      std::string dp = std::string(dump_path) + ".dec";
+      int dfd = open(dp.c_str(), O_WRONLY | O_CREAT | O_TRUNC, 0644);
+      if (dfd >= 0) sim_set_decision_fd(dfd);
+    }
   }
   RunResult R;
   execute(s, R);
